@@ -1,6 +1,7 @@
 """C16 — bit-packing is the specification's encoding and is lossless."""
 from .. import pyspec as S
 ID = "C16"
+SPEC_ORACLE = ['bits']   # specification definitions used by Props/C16.lean are compared with hashlib / pyspec on every run
 SETS = ["lvl2", "lvl3", "lvl5", "ml_dsa_44", "ml_dsa_65", "ml_dsa_87"]
 RULE = ("per codec and per textual copy (6 poly modules, 6 packing modules): extreme vectors (all-min, all-max, alternating, one "
         "extreme at each group offset), random in-range vectors; decoders on random bytes and all-00/all-FF; hint vectors of weight "
